@@ -554,6 +554,10 @@ class Facts:
                 self.impls.append(im)
         self._closures_of = None
         self._callers = None
+        self.name_aliases = []
+        if 'qvfix' not in crates:
+            from . import pins
+            self.name_aliases = pins.apply(self)
 
     # ---- lookup ----------------------------------------------------------
     def fns(self, pat, kinds=('fn', 'closure', 'coroutine')):
